@@ -94,7 +94,6 @@ Definition home_violations (c_dump c_layer : list dentry) (u : cuser)
        carries the same mode and owner in the serialised layer *)
     match fst h, find_dentry (rel_name home) c_dump with
     | None, Some _ =>
-        if ends_with_slash home then [] else
         match find_dentry (rel_name home) c_layer with
         | Some l => tag_if (negb (kind_eqb (d_kind l) KDir && N.eqb (d_perm l) spec_home_mode &&
                                   N.eqb (d_uid l) (cu_uid u) && N.eqb (d_gid l) (spec_gid u)))
